@@ -35,6 +35,7 @@ import (
 	"math/rand"
 	"os"
 	"runtime"
+	"strings"
 	"sync"
 	"sync/atomic"
 	"time"
@@ -292,60 +293,22 @@ func (w *worker) step(allowBulk bool) {
 	w.yield()
 }
 
-func main() {
-	seed := flag.Int64("seed", 1, "")
-	out := flag.String("out", "", "trace file")
-	ng := flag.Int("g", 0, "goroutines (0: 2..16 by seed)")
-	procs := flag.Int("procs", 0, "GOMAXPROCS (0: 1,2,4,16 by seed)")
-	rounds := flag.Int("rounds", 6, "rounds, each ended by a quiescent point")
-	ops := flag.Int("ops", 4000, "calls per round, all goroutines together")
-	closeMode := flag.String("close", "", "force-alone | soft-release | soft-gets | force-race (default: by seed)")
-	flag.Parse()
-
-	r0 := rand.New(rand.NewSource(*seed*7919 + 17))
-	if *procs == 0 {
-		*procs = []int{1, 2, 4, 16}[r0.Intn(4)]
-	}
-	if *ng == 0 {
-		*ng = 2 + r0.Intn(15)
-	}
-	nk := []int{1, 2, 4, 8, 16}[r0.Intn(5)]
-	cap0 := r0.Intn(maxCap + 1)
-	if *closeMode == "" {
-		*closeMode = []string{"force-alone", "soft-release", "soft-gets"}[r0.Intn(3)]
-	}
-	yieldInCb = r0.Intn(2) == 0
-	runtime.GOMAXPROCS(*procs)
-
-	var err error
-	tr, err = vt.NewTracer(*out)
-	if err != nil {
-		fmt.Fprintln(os.Stderr, err)
-		os.Exit(2)
-	}
-	done := make(chan struct{})
-	go func() { // watchdog: a hang is trouble in the machinery (or a liveness matter), never a C17 verdict
-		select {
-		case <-done:
-		case <-time.After(240 * time.Second):
-			fmt.Fprintln(os.Stderr, "cachechk: watchdog: run did not finish in 240 s")
-			os.Exit(3)
-		}
-	}()
-
+// runEpoch creates one cache, drives it through `rounds` rounds and closes it.
+func runEpoch(seed int64, epoch, ng, procs, nk, cap0 int, closeMode string, rounds, ops int) ([]*worker, cache.Stats, int) {
+	atomic.StoreInt64(&liveSum, 0)
 	c := cache.NewCache(cache.NewLRU(cap0))
-	tr.Emit(vt.Ev{"ev": "reset", "seed": *seed, "g": *ng, "procs": *procs, "nk": nk, "cap": cap0, "close": *closeMode})
+	tr.Emit(vt.Ev{"ev": "reset", "seed": seed, "epoch": epoch, "g": ng, "procs": procs, "nk": nk, "cap": cap0, "close": closeMode})
 
-	ws := make([]*worker, *ng)
+	ws := make([]*worker, ng)
 	for g := range ws {
-		ws[g] = &worker{g: g, r: rand.New(rand.NewSource(*seed*1000003 + int64(g))), c: c, nk: nk, calls: map[string]int64{}}
+		ws[g] = &worker{g: g, r: rand.New(rand.NewSource(seed*1000003 + int64(epoch)*1009 + int64(g))), c: c, nk: nk, calls: map[string]int64{}}
 	}
-	perG := *ops / *ng
+	perG := ops / ng
 	if perG < 20 {
 		perG = 20
 	}
 	quiesce := 0
-	for round := 0; round < *rounds; round++ {
+	for round := 0; round < rounds; round++ {
 		var wg sync.WaitGroup
 		bulkRound := round%2 == 0
 		for _, w := range ws {
@@ -375,8 +338,8 @@ func main() {
 
 	// ---- closing phase (GetStats dereferences the dropped table head after Close: read it before)
 	st := c.GetStats()
-	force := *closeMode == "force-alone" || *closeMode == "force-race"
-	if *closeMode == "soft-gets" {
+	force := closeMode == "force-alone" || closeMode == "force-race"
+	if closeMode == "soft-gets" {
 		tr.Emit(vt.Ev{"ev": "setcap", "g": -1, "c": 0})
 		c.SetCapacity(0) // nothing retained: no eviction inside Get, hence no nested read lock while Close waits
 	}
@@ -395,7 +358,7 @@ func main() {
 	}
 	wg.Wait()
 	start := make(chan struct{})
-	overlap := *closeMode != "force-alone"
+	overlap := closeMode != "force-alone"
 	for _, w := range ws {
 		wg.Add(1)
 		go func(w *worker) {
@@ -404,7 +367,7 @@ func main() {
 			if !overlap {
 				return
 			}
-			if *closeMode == "soft-gets" {
+			if closeMode == "soft-gets" {
 				for i := 0; i < 30; i++ {
 					if len(w.held) < 2 && w.r.Intn(2) == 0 {
 						w.get(uint64(w.r.Intn(w.nk)), 0)
@@ -456,25 +419,80 @@ func main() {
 	tr.Emit(vt.Ev{"ev": "close-end", "force": f, "again": 1})
 	tr.Emit(vt.Ev{"ev": "end", "charge": atomic.LoadInt64(&liveSum), "constructed": atomic.LoadInt64(&nCons),
 		"finalized": atomic.LoadInt64(&nFin)})
+	return ws, st, quiesce
+}
+
+func main() {
+	seed := flag.Int64("seed", 1, "")
+	out := flag.String("out", "", "trace file")
+	ng := flag.Int("g", 0, "goroutines (0: 2..16 by seed)")
+	procs := flag.Int("procs", 0, "GOMAXPROCS (0: 1,2,4,16 by seed)")
+	epochs := flag.Int("epochs", 1, "caches created, used and closed one after the other (a reset line starts each)")
+	rounds := flag.Int("rounds", 6, "rounds per epoch, each ended by a quiescent point")
+	ops := flag.Int("ops", 4000, "calls per round, all goroutines together")
+	closeModes := flag.String("close", "force-alone,soft-release",
+		"closing variants drawn per epoch: force-alone | soft-release | soft-gets | force-race")
+	flag.Parse()
+
+	r0 := rand.New(rand.NewSource(*seed*7919 + 17))
+	if *procs == 0 {
+		*procs = []int{1, 2, 4, 16}[r0.Intn(4)]
+	}
+	if *ng == 0 {
+		*ng = 2 + r0.Intn(15)
+	}
+	modes := strings.Split(*closeModes, ",")
+	yieldInCb = r0.Intn(2) == 0
+	runtime.GOMAXPROCS(*procs)
+
+	var err error
+	tr, err = vt.NewTracer(*out)
+	if err != nil {
+		fmt.Fprintln(os.Stderr, err)
+		os.Exit(2)
+	}
+	done := make(chan struct{})
+	go func() { // watchdog: a hang is trouble in the machinery (or a liveness matter), never a C17 verdict
+		select {
+		case <-done:
+		case <-time.After(240 * time.Second):
+			fmt.Fprintln(os.Stderr, "cachechk: watchdog: run did not finish in 240 s")
+			os.Exit(3)
+		}
+	}()
+
+	calls := map[string]int64{}
+	closes := map[string]int64{}
+	var bulkKeys, quiesce, grow, shrink int64
+	nks := map[int]bool{}
+	for e := 0; e < *epochs; e++ {
+		nk := []int{1, 2, 4, 8, 16}[r0.Intn(5)]
+		cap0 := r0.Intn(maxCap + 1)
+		mode := modes[r0.Intn(len(modes))]
+		nks[nk] = true
+		closes[mode]++
+		ws, st, q := runEpoch(*seed, e, *ng, *procs, nk, cap0, mode, *rounds, *ops)
+		for _, w := range ws {
+			for k, v := range w.calls {
+				calls[k] += v
+			}
+			bulkKeys += w.bulkN
+		}
+		quiesce += int64(q)
+		grow += int64(st.GrowCount)
+		shrink += int64(st.ShrinkCount)
+	}
 	close(done)
 	n := tr.N()
 	if err := tr.Close(); err != nil {
 		fmt.Fprintln(os.Stderr, err)
 		os.Exit(2)
 	}
-	calls := map[string]int64{}
-	var bulkKeys int64
-	for _, w := range ws {
-		for k, v := range w.calls {
-			calls[k] += v
-		}
-		bulkKeys += w.bulkN
-	}
 	sum := map[string]interface{}{
-		"seed": *seed, "goroutines": *ng, "procs": *procs, "nk": nk, "cap0": cap0, "close": *closeMode, "events": n,
+		"seed": *seed, "goroutines": *ng, "procs": *procs, "epochs": *epochs, "closes": closes, "events": n,
 		"calls": calls, "constructed": atomic.LoadInt64(&nCons), "finalized": atomic.LoadInt64(&nFin),
 		"callbacks": atomic.LoadInt64(&nCb), "deletes": atomic.LoadInt64(&ndel), "max_handles": atomic.LoadInt64(&maxHeld),
-		"quiesce": quiesce, "grow": st.GrowCount, "shrink": st.ShrinkCount, "bulk_keys": bulkKeys, "yield_in_callbacks": yieldInCb,
+		"quiesce": quiesce, "grow": grow, "shrink": shrink, "bulk_keys": bulkKeys, "yield_in_callbacks": yieldInCb,
 	}
 	b, _ := json.Marshal(sum)
 	fmt.Println(string(b))
